@@ -156,6 +156,47 @@ def values_for_items(root):
     return _rewrite_all(root, tr)
 
 
+def rename_private(root):
+    """Behaviour-preserving rewrite: every single-underscore attribute/method name (x._name, def _name, class-level
+    _name = ...) is renamed consistently across the package, together with string constants equal to such a name (the metaclass
+    writes dct["_group_definitions"])."""
+    import ast
+
+    def ok(n):
+        return n.startswith("_") and not n.startswith("__") and len(n) > 1
+
+    names = set()
+    for dp, dn, fn in os.walk(os.path.join(root, "indi")):
+        for f in fn:
+            if f.endswith(".py"):
+                for node in ast.walk(ast.parse(open(os.path.join(dp, f), encoding="utf-8").read())):
+                    if isinstance(node, ast.Attribute) and ok(node.attr):
+                        names.add(node.attr)
+
+    def tr(tree):
+        k = 0
+        for node in ast.walk(tree):
+            if isinstance(node, ast.Constant) and isinstance(node.value, str) and node.value in names:
+                node.value += "_p"
+                k += 1
+            elif isinstance(node, ast.Attribute) and ok(node.attr):
+                node.attr += "_p"
+                k += 1
+            elif isinstance(node, (ast.FunctionDef, ast.AsyncFunctionDef)) and ok(node.name):
+                node.name += "_p"
+                k += 1
+            elif isinstance(node, ast.ClassDef):
+                for st in node.body:
+                    tg = st.targets if isinstance(st, ast.Assign) else ([st.target] if isinstance(st, ast.AnnAssign) else [])
+                    for t in tg:
+                        if isinstance(t, ast.Name) and ok(t.id):
+                            t.id += "_p"
+                            k += 1
+        return k
+
+    return _rewrite_all(root, tr)
+
+
 def run_one(entry, evidence_dir):
     mid, kind, props, rule, file, old, new = entry
     d = tempfile.mkdtemp(prefix="indilint-selftest-")
@@ -170,6 +211,8 @@ def run_one(entry, evidence_dir):
             res["ifs"] = invert_ifs(d)
         elif file == "*values-for-items*":
             res["loops"] = values_for_items(d)
+        elif file == "*rename-private*":
+            res["names"] = rename_private(d)
         else:
             path = os.path.join(d, file)
             src = open(path, encoding="utf-8").read()
@@ -218,6 +261,7 @@ def run_for_property(prop: str, jobs: int = 16):
     entries.append((f"{prop}-rename-locals", "preserve", [prop], None, "*rename-locals*", "", ""))
     entries.append((f"{prop}-invert-ifs", "preserve", [prop], None, "*invert-ifs*", "", ""))
     entries.append((f"{prop}-values-for-items", "preserve", [prop], None, "*values-for-items*", "", ""))
+    entries.append((f"{prop}-rename-private", "preserve", [prop], None, "*rename-private*", "", ""))
     t0 = time.time()
     evdir = tempfile.mkdtemp(prefix="indilint-selftest-ev-")
     try:
@@ -244,6 +288,7 @@ def main(argv=None):
     entries.append(("all-rename-locals", "preserve", allprops, None, "*rename-locals*", "", ""))
     entries.append(("all-invert-ifs", "preserve", allprops, None, "*invert-ifs*", "", ""))
     entries.append(("all-values-for-items", "preserve", allprops, None, "*values-for-items*", "", ""))
+    entries.append(("all-rename-private", "preserve", allprops, None, "*rename-private*", "", ""))
     if sel:
         entries = [e for e in entries if set(e[2]) & sel]
         entries = [(e[0], e[1], [p for p in e[2] if p in sel] if e[1] == "preserve" else e[2], e[3], e[4], e[5], e[6]) for e in entries]
